@@ -34,7 +34,8 @@ Section Sound.
         vtyped (VRecord (e_attrs e)) (CRec (te_shape te)) /\
         (forall k v, rec_get k (e_tags e) = Some v -> exists tt, te_tags te = Some tt /\ vtyped v tt) /\
         (forall p, In p (e_parents e) -> In (fst p) (te_parents te))
-    | None => e_attrs e = [] /\ e_tags e = []       (* enum and action entities carry no data *)
+    | None => e_attrs e = [] /\ e_tags e = [] /\     (* enum and action entities carry no data; enumerated entities have no parents either *)
+              (TypeCheck.smem (fst u) (ts_enums sch) = true -> e_parents e = [])
     end.
   Definition store_ok (st : store) : Prop := forall u e, lookup st u = Some e -> entity_ok u e.
 
